@@ -33,7 +33,7 @@ def build_inv(cell):
     import pytorch_wavelets as pw
     with util.default_dtype(torch.float64):
         if cell['dim'] == 1:
-            return pw.DWT1DInverse(wave=cell['wave'], mode=c01.lib_mode(cell))
+            return pw.DWT1DInverse(wave=c01.wave_arg(cell, True), mode=c01.lib_mode(cell))
         return pw.DWTInverse(wave=c01.wave_arg(cell, True), mode=c01.lib_mode(cell))
 
 
